@@ -78,6 +78,8 @@ def getinfo_cases(R, st, qt, u, fix_unknown, fix_legacy, props=()):
 
 @register
 class GetInfoSpec(FunctionSpec):
+
+    probe = "db_lookup"
     fq = UDB + ":UnitDatabase.GetInfo"
     props = ("C01", "C02", "C05", "C16")
     callees = (UDB + ":FixUnitIfIsLegacy",)
@@ -159,6 +161,8 @@ class ConvertSpec(FunctionSpec):
     same unit: result *is* value;  otherwise the quantity type is resolved (category → its type),
     both units are resolved by GetInfo(fix_unknown=True) and result = conv(from,to)(value),
     elementwise and kind-preserving for list / tuple / ndarray."""
+
+    probe = "db_lookup"
 
     fq = UDB + ":UnitDatabase.Convert"
     props = ("C01", "C02", "C05", "C16")
